@@ -992,3 +992,167 @@ Proof.
   - eapply select_nodes_enough; eauto.
   - eapply select_nodes_err; eauto.
 Qed.
+
+(** ** Cached answers satisfy the count clauses too
+
+    A cache entry is an earlier fresh answer on the SAME membership (every update clears the
+    cache; selections move cursors but never change the shape), and the count clauses speak
+    about the shape only. *)
+
+Lemma level_eqb_eq : forall a b, level_eqb a b = true -> a = b.
+Proof. destruct a, b; cbn; intros H; try reflexivity; discriminate. Qed.
+
+Lemma cache_get_In_lv : forall lv cache s, cache_get lv cache = Some s -> In (lv, s) cache.
+Proof.
+  induction cache as [|[lv' s'] r IH]; intros s H; cbn [cache_get] in H; [discriminate|].
+  destruct (level_eqb lv' lv) eqn:E.
+  - injection H as ->. apply level_eqb_eq in E. subst. now left.
+  - right. now apply IH.
+Qed.
+
+Lemma shape_cons_inv : forall (d d' : dc) l l',
+  shape (d :: l) = shape (d' :: l') ->
+  fst d = fst d' /\ cnodes (snd d) = cnodes (snd d') /\ shape l = shape l'.
+Proof. unfold shape. cbn [map]. intros d d' l l' [= H1 H2 H3]. auto. Qed.
+
+Lemma shape_lookup : forall name l l',
+  shape l = shape l' ->
+  option_map cnodes (lookup name l) = option_map cnodes (lookup name l').
+Proof.
+  unfold lookup. induction l as [|d r IH]; intros [|d' r'] H; try discriminate; [reflexivity|].
+  apply shape_cons_inv in H as (Hn & Hc & Hr). cbn [find]. rewrite <- Hn.
+  destruct (N.eqb (fst d) name); cbn [option_map]; [now rewrite Hc|]. now apply IH.
+Qed.
+
+Lemma shape_local_listed : forall local local_dc l l',
+  shape l = shape l' -> local_listed local local_dc l -> local_listed local local_dc l'.
+Proof.
+  intros local local_dc l l' Hs [c [Hl Hin]]. pose proof (shape_lookup local_dc l l' Hs) as E.
+  rewrite Hl in E. cbn [option_map] in E. destruct (lookup local_dc l') as [c'|] eqn:El'; [|discriminate].
+  cbn in E. injection E as E. exists c'. split; [exact El'|]. now rewrite <- E.
+Qed.
+
+Lemma shape_required : forall local local_dc l l' lv,
+  shape l = shape l' -> required local local_dc l lv = required local local_dc l' lv.
+Proof.
+  intros local local_dc l l' lv Hs.
+  assert (lnodes l = lnodes l') as Hln by (now rewrite !lnodes_shape, Hs).
+  destruct lv; cbn [required]; try reflexivity.
+  - now rewrite Hln.
+  - unfold local_dc_len. pose proof (shape_lookup local_dc l l' Hs) as E.
+    destruct (lookup local_dc l) as [c|], (lookup local_dc l') as [c'|]; cbn in E; try discriminate; [|reflexivity].
+    injection E as ->. reflexivity.
+  - unfold others. now rewrite Hln.
+  - revert l' Hs Hln. induction l as [|d r IH]; intros [|d' r'] Hs Hln; try discriminate; [reflexivity|].
+    apply shape_cons_inv in Hs as (Hn & Hc & Hr). cbn [fold_right].
+    assert (each_required local_dc d = each_required local_dc d') as ->.
+    { unfold each_required, each_majority. now rewrite Hn, Hc. }
+    f_equal. apply IH; [exact Hr|]. now rewrite !lnodes_shape, Hr.
+Qed.
+
+Definition op_wf_count (o : op) : Prop :=
+  op_wf o /\ match o with
+             | GetNodes lv choice => forall n, level_n lv = Some n -> length choice = n
+             | _ => True
+             end.
+
+Definition count_ok (local local_dc : N) (l : layout) (lv : level) (s : list N) : Prop :=
+  local_listed local local_dc l ->
+  required local local_dc l lv <= length s /\ (forall n, level_n lv = Some n -> length s = n).
+
+Definition cache_count_ok (local local_dc : N) (a : actor) : Prop :=
+  forall lv s, In (lv, s) (a_cache a) -> count_ok local local_dc (a_lay a) lv s.
+
+Lemma count_ok_shape : forall local local_dc l l' lv s,
+  shape l = shape l' -> count_ok local local_dc l lv s -> count_ok local local_dc l' lv s.
+Proof.
+  intros local local_dc l l' lv s Hs H Hll. rewrite <- (shape_required local local_dc l l' lv Hs).
+  apply H. apply (shape_local_listed local local_dc l' l); auto.
+Qed.
+
+Lemma actor_step_count : forall local local_dc new a o a' rep,
+  new_wf new -> actor_inv local new a -> cache_count_ok local local_dc a -> op_wf_count o ->
+  actor_step local local_dc a o = (a', rep) ->
+  cache_count_ok local local_dc a' /\
+  forall lv choice, o = GetNodes lv choice ->
+    match rep with
+    | Some (Ok sel) => count_ok local local_dc (a_lay a) lv sel
+    | Some (NotEnough live req) =>
+      length (others local (a_lay a)) < required local local_dc (a_lay a) lv
+    | None => False
+    end.
+Proof.
+  intros local local_dc new a o a' rep Hwf [Hsh [Htot Hcache]] Hcc [Ho Hcnt] H.
+  assert (lnodes (a_lay a) = concat (map snd new)) as Hln by (now rewrite lnodes_shape, Hsh).
+  assert (NoDup (lnodes (a_lay a))) as Hnd by (rewrite Hln; exact Hwf).
+  unfold actor_step, actor_step_gen in H. destruct o as [new'|lv choice|lv]; cbn [op_wf] in *.
+  - injection H as <- <-. split; [|discriminate]. intros lv s [].
+  - destruct (cache_get lv (a_cache a)) as [s|] eqn:Ec.
+    + injection H as <- <-. split; [exact Hcc|]. intros lv0 choice0 [= <- <-].
+      apply Hcc. now apply cache_get_In_lv.
+    + rewrite Htot, <- Hln in H.
+      destruct (select_nodes_gen true local local_dc (length (lnodes (a_lay a))) choice (a_lay a) lv) as [res l'] eqn:Es.
+      injection H as <- <-.
+      destruct (select_nodes_sound _ _ _ _ _ _ _ _ Hnd Ho Es) as [Hsh' _].
+      assert (forall sel, res = Ok sel -> count_ok local local_dc (a_lay a) lv sel) as Hres.
+      { intros sel -> Hll. eapply select_nodes_enough; eauto. }
+      split.
+      * intros lv0 s Hin. cbn [a_lay a_cache] in *. apply (count_ok_shape local local_dc (a_lay a) l'); [congruence|].
+        destruct res as [s0|lv1 rq].
+        -- destruct Hin as [[= <- <-]|Hin]; [now apply Hres|]. apply cache_remove_In in Hin. now apply Hcc.
+        -- now apply Hcc.
+      * intros lv0 choice0 [= <- <-]. destruct res as [sel|live req]; [now apply Hres|].
+        eapply select_nodes_err; eauto.
+  - injection H as <- <-. split; [|discriminate]. intros lv0 s Hin. cbn [a_lay a_cache] in *.
+    apply cache_remove_In in Hin. now apply Hcc.
+Qed.
+
+Lemma actor_run_count : forall local local_dc ops new a a' reps,
+  new_wf new -> actor_inv local new a -> cache_count_ok local local_dc a -> Forall op_wf_count ops ->
+  actor_run local local_dc ops a = (a', reps) ->
+  cache_count_ok local local_dc a'.
+Proof.
+  intros local local_dc. unfold actor_run.
+  induction ops as [|o r IH]; intros new a a' reps Hwf Hinv Hcc Hops H; cbn [actor_run_gen] in *.
+  - injection H as <- <-. exact Hcc.
+  - apply Forall_cons_iff in Hops as [Ho Hr].
+    destruct (actor_step_gen true true local local_dc a o) as [a1 rep] eqn:Es.
+    destruct (actor_run_gen true true local local_dc r a1) as [a2 reps2] eqn:Er.
+    injection H as <- <-.
+    destruct (actor_step_inv _ _ _ _ _ _ _ Hwf Hinv (proj1 Ho) Es) as [Hinv1 _].
+    destruct (actor_step_count _ _ _ _ _ _ _ Hwf Hinv Hcc Ho Es) as [Hcc1 _].
+    assert (new_wf (last_set [o] new)) as Hwf1 by (apply last_set_wf; [constructor; [exact (proj1 Ho)|constructor]|exact Hwf]).
+    exact (IH _ _ _ _ Hwf1 Hinv1 Hcc1 Hr Er).
+Qed.
+
+(** Every answer of the actor - fresh or served from the cache - selects enough, exactly
+    [n] for One/Two/Three, and fails only when too few other nodes exist. *)
+Theorem actor_selection_count : forall local local_dc ops lv choice,
+  Forall op_wf_count ops -> NoDup choice ->
+  (forall n, level_n lv = Some n -> length choice = n) ->
+  let a := fst (actor_run local local_dc ops actor_init) in
+  local_listed local local_dc (a_lay a) ->
+  match snd (actor_step local local_dc a (GetNodes lv choice)) with
+  | Some (Ok sel) =>
+    required local local_dc (a_lay a) lv <= length sel /\
+    (forall n, level_n lv = Some n -> length sel = n)
+  | Some (NotEnough live req) =>
+    length (others local (a_lay a)) < required local local_dc (a_lay a) lv
+  | None => False
+  end.
+Proof.
+  intros local local_dc ops lv choice Hops Hch Hlen a Hll.
+  destruct (actor_run local local_dc ops actor_init) as [a' reps] eqn:Er. subst a. cbn [fst] in *.
+  assert (new_wf []) as Hwf0 by constructor.
+  assert (actor_inv local [] actor_init) as Hinv0.
+  { split; [reflexivity | split; [reflexivity | intros lv0 s []]]. }
+  assert (cache_count_ok local local_dc actor_init) as Hcc0 by (intros lv0 s []).
+  assert (Forall op_wf ops) as Hops'.
+  { rewrite Forall_forall in *. intros o Ho. exact (proj1 (Hops o Ho)). }
+  pose proof (actor_run_inv _ _ _ _ _ _ _ Hwf0 Hinv0 Hops' Er) as Hinv.
+  pose proof (actor_run_count _ _ _ _ _ _ _ Hwf0 Hinv0 Hcc0 Hops Er) as Hcc.
+  destruct (actor_step local local_dc a' (GetNodes lv choice)) as [a2 rep] eqn:Es. cbn [snd].
+  destruct (actor_step_count local local_dc _ a' (GetNodes lv choice) a2 rep
+              (last_set_wf _ _ Hops' Hwf0) Hinv Hcc (conj Hch Hlen) Es) as [_ Hrep].
+  specialize (Hrep lv choice eq_refl). destruct rep as [[sel|live req]|]; auto.
+Qed.
